@@ -189,8 +189,10 @@ func (r Condition) SetOperator(op Operator) Condition {
 }
 
 func (r *condition) setOperator(op Operator) {
-	if len(op.Context()) > 0 && len(op.String()) > 0 {
-		r.op = op
+	if op != nil {
+		if len(op.Context()) > 0 && len(op.String()) > 0 {
+			r.op = op
+		}
 	}
 }
 
